@@ -1,10 +1,11 @@
 /-
   Props/C04All.lean — the module audited for C04: Props/C04.lean (shape, record sections), Props/C04Slider.lean
   (hit-object lines of all four kinds, the [HitObjects] block), Props/C04Timing.lean (the [TimingPoints] block),
-  Props/C04File.lean (the three composed: `encoded_file_accepted`, no shape assumption left) and Props/C04Toy.lean (the toy
-  map satisfying `RepMap`). All are in namespace `Rosu.C04`.
+  Props/C04File.lean + C04Toy.lean (all parts composed: `encoded_file_accepted`) and Props/C04Decoded.lean (the
+  `Decoded` invariant: every decoded map's record sections are representable). All in namespace `Rosu.C04`.
 -/
 import RosuModel.Props.C04Slider
 import RosuModel.Props.C04Timing
 import RosuModel.Props.C04File
 import RosuModel.Props.C04Toy
+import RosuModel.Props.C04Decoded
